@@ -2934,6 +2934,15 @@ v("C12", "stream-client-own-verdict-before-status", "httpgrpc/client.go",
   "	stat := statFromResponse(reply)\n", "	if reply.Header.Get(\"Content-Type\") != StreamRpcContentType_V1 {\n		cs.tr.Code = int32(codes.Unavailable)\n		return\n	}\n	stat := statFromResponse(reply)\n", "R9", "no-own-verdict-before-the-status-header",
   "the mux's 404 for an unknown method becomes Unavailable")
 
+# ------------------------------------------------------------------ wave 11
+v("C05", "http-message-channel-buffered", "httpgrpc/client.go",
+  "		rCh:        make(chan []byte),", "		rCh:        make(chan []byte, 4),", "R16", "unbuffered",
+  "messages parked in the channel when the stream is marked done are never received")
+v("C09", "stream-gets-a-channel-wide-timeout", "httpgrpc/client.go",
+  "	ctx, cancel := context.WithCancel(ctx)\n\n	h := headersFromContext(ctx)\n	h.Set(\"Content-Type\", StreamRpcContentType_V1)", "	ctx, cancel := context.WithTimeout(ctx, 30*time.Second)\n\n	h := headersFromContext(ctx)\n	h.Set(\"Content-Type\", StreamRpcContentType_V1)", "R1", "no-library-timer-on-the-callers-deadline",
+  "a caller's longer deadline is cut to the library's default",
+  edits=[{"file": "httpgrpc/client.go", "old": "	ctx, cancel := context.WithCancel(ctx)\n\n	h := headersFromContext(ctx)\n	h.Set(\"Content-Type\", StreamRpcContentType_V1)", "new": "	ctx, cancel := context.WithTimeout(ctx, 30*time.Second)\n\n	h := headersFromContext(ctx)\n	h.Set(\"Content-Type\", StreamRpcContentType_V1)"}])
+
 
 def main():
     if os.path.isdir(OUT):
